@@ -47,8 +47,8 @@ Proof. unfold lerp. ring. Qed.
 Lemma Qltb_false_both (d : Q) : Qltb 0 d = false -> Qltb d 0 = false -> d == 0.
 Proof.
   intros H1 H2.
-  assert (~ 0 < d) by (intro H; apply Qltb_iff in H; congruence).
-  assert (~ d < 0) by (intro H; apply Qltb_iff in H; congruence).
+  assert (~ 0 < d) by (intro K; apply Qltb_iff in K; congruence).
+  assert (~ d < 0) by (intro K; apply Qltb_iff in K; congruence).
   lra.
 Qed.
 
